@@ -114,7 +114,9 @@ impl SampleTables {
         let cts_offsets: Vec<i32> = samples
             .iter()
             .map(|sample| {
-                let offset = (sample.pts as i64 - sample.dts as i64) as i32;
+                // Two's-complement difference: equal to pts - dts whenever that fits in 32
+                // bits and never an arithmetic overflow for saturated timestamps.
+                let offset = sample.pts.wrapping_sub(sample.dts) as i32;
                 if offset != 0 {
                     has_bframes = true;
                 }
